@@ -581,7 +581,7 @@ class Gen:
             prog = list(main)
             if end == "fall" and not terminated:
                 self.features.add("fall_off_end")
-            subs_first = self.p["hostile_layout"] and self.subs and self.chance(0.2)
+            subs_first = self.p["hostile_layout"] and self.subs and self.chance(self.p.get("p_subs_first", 0.2))
             if subs_first:
                 self.features.add("subs_first")
                 start = self.lab("MAIN")
@@ -600,7 +600,7 @@ class Gen:
                 # `TOP: int 1; txn NumAppArgs; bnz TOP` : falls off the end with [1] when NumAppArgs == 0
                 prog = prog[:-2] + [("label", top), ("int", 1), ("txn", "NumAppArgs"), ("bnz", top)]
                 self.features.add("branch_as_last_instruction")
-            elif "subs_first" in self.features and self.subs and self.chance(0.1):
+            elif "subs_first" in self.features and self.subs and self.chance(self.p.get("p_call_last", 0.1)):
                 prog = prog[:-1] + [("callsub", self.subs[0])]
                 self.features.add("call_as_last_instruction")
         if self.intc_vals:
